@@ -160,6 +160,47 @@ impl InputReader<'_, '_> {
         }
     }
 
+    /// Returns `true` if the input is physically active.
+    ///
+    /// Unlike [`Self::value`], ignores consumed inputs and UI focus.
+    pub(crate) fn active_unconsumed(&self, input: impl Into<Input>) -> bool {
+        let mod_keys_down = |mod_keys: ModKeys| {
+            mod_keys
+                .iter_keys()
+                .all(|keys| self.keys.any_pressed(keys))
+        };
+
+        match input.into() {
+            Input::Keyboard { key, mod_keys } => self.keys.pressed(key) && mod_keys_down(mod_keys),
+            Input::MouseButton { button, mod_keys } => {
+                self.mouse_buttons.pressed(button) && mod_keys_down(mod_keys)
+            }
+            Input::MouseMotion { mod_keys } => {
+                self.mouse_motion.delta != Vec2::ZERO && mod_keys_down(mod_keys)
+            }
+            Input::MouseWheel { mod_keys } => {
+                self.mouse_scroll.delta != Vec2::ZERO && mod_keys_down(mod_keys)
+            }
+            Input::GamepadButton(button) => match *self.gamepad_device {
+                GamepadDevice::Any => self.gamepads.iter().any(|gamepad| gamepad.pressed(button)),
+                GamepadDevice::Single(entity) => self
+                    .gamepads
+                    .get(entity)
+                    .is_ok_and(|gamepad| gamepad.pressed(button)),
+            },
+            Input::GamepadAxis(axis) => match *self.gamepad_device {
+                GamepadDevice::Any => self
+                    .gamepads
+                    .iter()
+                    .any(|gamepad| gamepad.get_unclamped(axis).is_some_and(|value| value != 0.0)),
+                GamepadDevice::Single(entity) => self
+                    .gamepads
+                    .get(entity)
+                    .is_ok_and(|gamepad| gamepad.get(axis).is_some_and(|value| value != 0.0)),
+            },
+        }
+    }
+
     fn mod_keys_pressed(&self, mod_keys: ModKeys) -> bool {
         if !mod_keys.is_empty() && self.consumed.ui_wants_keyboard {
             return false;
